@@ -195,8 +195,39 @@ class Extracted:
         return f"{self.src.rel}:{self.first_line}-{self.last_line} {c}{self.kind} {self.name}"
 
 
+def resolve_container(root, rel, kind, name, container):
+    """several inherent impl blocks may share one header: pick the one that holds the wanted item"""
+    if not container:
+        return container
+    src = Source.get(root, rel)
+    try:
+        _container_span(src, container)
+        return container
+    except ExtractError as e:
+        if "ambiguous impl header" not in str(e):
+            raise
+    last_k, last_n = container[-1]
+    found = []
+    for k in range(1, 12):
+        cand = container[:-1] + [(last_k, f"{last_n}#{k}")]
+        try:
+            lo, hi, depth = _container_span(src, cand)
+        except ExtractError:
+            break
+        try:
+            _find_keyword(src, kind, name, lo, hi, depth)
+            found.append(cand)
+        except ExtractError:
+            pass
+    if len(found) != 1:
+        raise ExtractError(f"{kind} {name}: {len(found)} of the impl blocks `{last_n}` in {rel} contain it")
+    return found[0]
+
+
 def extract(root, rel, kind, name, container=None):
     src = Source.get(root, rel)
+    if container and kind != "impl":
+        container = resolve_container(root, rel, kind, name, container)
     lo, hi, depth = _container_span(src, container)
     if kind == "impl":
         blo, bhi, _ = _container_span(src, (container or []) + [("impl", name)])
